@@ -105,6 +105,8 @@ pub fn new(parameters: &RawParameters, _ctx: &dyn Context) -> Result<Op, Error> 
         ));
     }
 
+    params.boolean.insert(super::pipeline::STACK_MACHINE_MARKER);
+
     // The true action is handled by 'pipeline', so the `InnerOp`s are placeholders
     let descriptor = OpDescriptor::new(def, InnerOp::default(), Some(InnerOp::default()));
     let steps = Vec::new();
